@@ -79,6 +79,7 @@ theorem C02_lookahead (cx : Ctx) (i c : Nat) (nd : Node)
     · simp only [Option.map_eq_some_iff] at h0
       obtain ⟨r1, h1, rfl⟩ := h0
       simpa using ih _ _ _ _ _ h1
+    · exact hcore _ _ _ _ h0
 
 /-- Every atom's one-argument `match( in )` peeks before it bumps: a failing atom leaves the
     whole cursor unchanged (and no atom ever moves it backwards). -/
